@@ -143,7 +143,15 @@ class VTask(Task):
                 raise AssertionError(f"objective called outside the search space: {pr} {x!r}")
         if OBJ['args'] is not None:
             OBJ['args'].append([list(e) if isinstance(e, (list, np.ndarray)) else e for e in x])
-        return pure_objective(d, x)
+        v = pure_objective(d, x)
+        if d.get('scribble'):
+            # user code is free to edit the list it is handed: Task.solve passes a private, freshly corrected copy
+            try:
+                for i in range(len(x)):
+                    x[i] = 1e300
+            except Exception:
+                pass
+        return v
 
 
 def pure_objective(d, x):
@@ -223,8 +231,10 @@ INTEGER = ['disc2', 'dm2', 'dm3', 'bin4', 'mixed3', 'perm4', 'perm4c']
 ALL_PROTOS = CONTINUOUS + INTEGER
 
 
-def make_task(proto, minmax='min', obj='quad', neg=False, seed=None, weights=None, cls=VTask, raise_on_bad=False):
-    d = {'obj': obj, 'neg': bool(neg), 'mo': proto == 'mo2', 'raise': bool(raise_on_bad), 'proto': proto}
+def make_task(proto, minmax='min', obj='quad', neg=False, seed=None, weights=None, cls=VTask, raise_on_bad=False,
+              scribble=False):
+    d = {'obj': obj, 'neg': bool(neg), 'mo': proto == 'mo2', 'raise': bool(raise_on_bad), 'proto': proto,
+         'scribble': bool(scribble)}
     kw = {}
     if proto == 'mo2':
         kw['objective_weights'] = list(weights) if weights is not None else [0.3, 0.7]
